@@ -375,8 +375,8 @@ def run(sim):
     # Two families exist only to keep finding the two defects this check found on the unchanged tree
     # (see FINDINGS below); all other runs avoid their preconditions so that every other clause is
     # exercised on full-length runs whether or not those defects are listed/fixed.
-    tiny_window = sim.draw_bool(0.03, "allow_window_1")
-    hunt_close_ext = sim.draw_bool(0.04, "hunt_close_between_ext_entries")
+    tiny_window = sim.draw_bool(0.2, "allow_window_1")
+    hunt_close_ext = sim.draw_bool(0.3, "hunt_close_between_ext_entries")
     windows = WINDOWS if tiny_window else WINDOWS[:-1]
     big = sim.draw_choice([0, 0, 1], "big_writes")
     lose_w = sim.draw_choice([2, 1, 4], "lose_weight")
